@@ -390,6 +390,8 @@ class AdjustLocationByOffset:
                 and (first.start == orig.start and first.end == orig.end + offset if rev
                      else first.start == orig.start + offset and first.end == orig.end))
 
+    returns = LOC
+
 
 # ---- offset ------------------------------------------------------------------------------------------------
 @spec
@@ -607,3 +609,55 @@ class ExtendSimpleLocation:
             and implies(len(result.parts) == 2,
                         (result.parts[0].start == 0) if location.strand == -1 else (result.parts[1].start == 0)),
     }
+
+
+# ---- codon_start: the frame shift and its undo are inverse (C10: a partial gene survives the round trip) --------
+def _shifted(original, raw_start):
+    return frameshift_location_by_qualifier(original, raw_start)
+
+
+@contract(f"{FILE}::frameshift_location_by_qualifier", props=["C10", "C09"])
+class FrameshiftUndoIsInverse:
+    """Reading a CDS applies its /codon_start to the location, writing it undoes that: the undo of a frame shift gives back
+    exactly the location it started from (locations of up to 3 parts, either strand, coordinates unbounded)."""
+    variant = True
+    params = {"original": LOC, "raw_start": Int, "undo": Const(True)}
+    ghost_params = ["original"]
+    derived = {"location": _shifted}
+
+    def requires(original, raw_start):
+        return (wf(original) and same_strand(original) and 1 <= raw_start and raw_start <= 3
+                and (simple(original) or not bridges_spec(original)) and disjoint(original)
+                and all(p.end - p.start > 4 for p in original.parts))
+
+    ensures = {
+        "undo-gives-back-the-original-location": lambda original, result:
+            len(result.parts) == len(original.parts)
+            and all(parts_equal([result.parts[i]], [original.parts[i]]) for i in range(len(original.parts))),
+    }
+
+
+@contract(f"{FILE}::frameshift_location_by_qualifier", props=["C10", "C09"])
+class FrameshiftByQualifier:
+    """/codon_start n moves the 5' end of the gene by n-1 bases into the gene (the start of the first part on the forward
+    strand, the end of the first part on the reverse strand), any other value is refused."""
+    params = {"location": LOC, "raw_start": Int, "undo": Const(False)}
+
+    def requires(location, raw_start):
+        return (wf(location) and same_strand(location)
+                and (simple(location) or not bridges_spec(location)) and disjoint(location)
+                and all(p.end - p.start > 2 for p in location.parts))
+
+    raises = {"SecmetInvalidInputError": lambda raw_start: not (1 <= raw_start and raw_start <= 3)}
+    ensures = {
+        "five-prime-end-moved-into-the-gene": lambda location, raw_start, result:
+            len(result.parts) == len(location.parts)
+            and all(parts_equal([result.parts[i]], [location.parts[i]]) for i in range(1, len(location.parts)))
+            and result.parts[0].strand == location.parts[0].strand
+            and (result.parts[0].end == location.parts[0].end - (raw_start - 1)
+                 and result.parts[0].start == location.parts[0].start
+                 if location.parts[0].strand == -1 else
+                 result.parts[0].start == location.parts[0].start + (raw_start - 1)
+                 and result.parts[0].end == location.parts[0].end),
+    }
+    returns = LOC
